@@ -97,3 +97,32 @@ func VerifCellRoundTrip() {
 	verifAssert(kv.ts == ts && kv.typ == typ, "independent decoder returns the identical timestamp and type")
 	verifReach("roundtrip")
 }
+
+// VerifCellBoundary: the round trip at the documented limits of the length fields — a row of
+// ROW bytes (16-bit length) and a family of FAM bytes (8-bit length) — with symbolic bytes at
+// both ends of every field, a symbolic timestamp and type.
+func VerifCellBoundary() {
+	mk := func(n int) []byte {
+		b := make([]byte, n)
+		if n > 0 {
+			b[0] = verifU8()
+			b[n-1] = verifU8()
+		}
+		return b
+	}
+	row, fam := mk(verifParam("ROW")), mk(verifParam("FAM"))
+	qual, val := mk(2), mk(2)
+	ts, typ := verifU64(), verifU8()
+	out := appendCellblock(row, string(fam), string(qual), val, ts, typ, nil)
+	want := cellblockLen(len(row), len(fam), len(qual), len(val))
+	verifAssert(len(out) == want, "writer appends exactly cellblockLen bytes")
+	c, n, err := cellFromCellBlock(out)
+	verifAssert(err == nil && int(n) == want, "client decoder accepts and consumes exactly what was written")
+	verifAssert(vEq(c.Row, row) && vEq(c.Family, fam) && vEq(c.Qualifier, qual) && vEq(c.Value, val),
+		"client decoder returns the identical fields at the length limits")
+	verifAssert(*c.Timestamp == ts && byte(*c.CellType) == typ, "identical timestamp and type")
+	kv := vDecodeKV(out)
+	verifAssert(kv.ok && kv.n == want && vEq(kv.row, row) && vEq(kv.fam, fam) && vEq(kv.qual, qual) && vEq(kv.val, val),
+		"independent decoder returns the identical fields at the length limits")
+	verifReach("boundary")
+}
